@@ -1,6 +1,7 @@
 // C03 — replies go back to the asker, from the identity that was asked.
 // C04 — every emitted frame is well-formed at every layer (shares the generator).
 
+use crate::vf::shadow::{shadow_opt, with_shadow, Shadow};
 use proptest::collection::vec;
 use proptest::prelude::*;
 use serde::{Deserialize, Serialize};
@@ -52,6 +53,9 @@ pub struct Case {
     /// then a later segment of an established, possibly already identified connection)
     #[serde(default)]
     pub prev: Option<Pay>,
+    /// sibling traffic sent before every frame of the case (vf/shadow.rs)
+    #[serde(default)]
+    pub shadow: Option<Shadow>,
 }
 
 /// STUN messages for an established STUN flow: any class / method, CHANGE-REQUEST inside
@@ -81,6 +85,13 @@ pub fn ip_tcp_tweak() -> impl Strategy<Value = IpTweak> {
 }
 
 pub fn case_strategy() -> impl Strategy<Value = Case> {
+    (case_strategy0(), shadow_opt()).prop_map(|(mut c, sh)| {
+        c.shadow = sh;
+        c
+    })
+}
+
+fn case_strategy0() -> impl Strategy<Value = Case> {
     // the inner strategies are built once (building them compiles regexes) and cloned per case
     let (r4, r6) = (req(true), req(false));
     let csum = prop_oneof![5 => Just(None), 1 => prop::sample::select(vec![0u16, 0xffff, 0xdead, 1]).prop_map(Some), 1 => any::<u16>().prop_map(Some)].boxed();
@@ -109,7 +120,7 @@ pub fn case_strategy() -> impl Strategy<Value = Case> {
                     _ => {}
                 }
             }
-            Case { scn, hist, req, req_csum, alias_mac, ip_tweak, opts, self_addressed, vlan, prev }
+            Case { shadow: None, scn, hist, req, req_csum, alias_mac, ip_tweak, opts, self_addressed, vlan, prev }
         })
     })
 }
@@ -214,6 +225,10 @@ pub fn run_case(c: &Case, st: &mut Stats) -> Option<(Vec<u8>, Vec<u8>)> {
 }
 
 pub fn check_mode(c: &Case, st: &mut Stats, mode: &Mode) -> Check {
+    with_shadow(&c.shadow, st, |st| check_mode0(c, st, mode))
+}
+
+fn check_mode0(c: &Case, st: &mut Stats, mode: &Mode) -> Check {
     let (reqf, r) = match run_case(c, st) {
         Some(x) => x,
         None => return Ok(()),
